@@ -29,6 +29,14 @@ pub(crate) use peers::{
     predicate::{PredicateQuery, PredicateQueryConfig},
 };
 
+#[cfg(feature = "verif-hooks")]
+pub mod verif_reexports {
+    pub use super::peers::{
+        closest::{FindNodeQuery, FindNodeQueryConfig},
+        QueryState,
+    };
+}
+
 use crate::kbucket::{Key, PredicateKey};
 use fnv::FnvHashMap;
 use std::time::{Duration, Instant};
